@@ -30,7 +30,11 @@ def execute(case):
             seq.scale(3, quantise_afterwards=False)
             line["in"] = P.raw_abs(seq)
         perturb_returned_defaults()
-        if values == list(DEFAULT_VALUES) and idx % 2:
+        sigs = [(m["ty"], m["n"], m["d"], m["k"]) for m in line["in"] if m["ty"] in ("ts", "ks")]
+        if idx % 13 == 12 and len(set(sigs)) == len(sigs):      # (normalise would drop a signature repeating the one in force)
+            # the composite entry point (grid step 1 = identity, then the note lengths, then normalise)
+            seq.quantise_and_normalise([1], list(values), do_not_extend=noext)
+        elif values == list(DEFAULT_VALUES) and idx % 2:
             seq.quantise_note_lengths(do_not_extend=noext)     # the default values through the default argument
         else:
             seq.quantise_note_lengths(list(values), do_not_extend=noext)
